@@ -1875,11 +1875,25 @@ class _gpg_multivalued(_multivalued):
                 # the raw text.
                 pass
             else:
+                # Lines of text are turned into bytes one by one.  That is
+                # done with UTF-8 whatever the encoding of the file object:
+                # a codec that writes a signature (utf-8-sig, utf-16) would
+                # put it in front of every line, and blank lines, comments
+                # and the armor would no longer be recognised.  Lines that
+                # are bytes already stay as they are.
+                line_encoding = 'utf-8'
+                text_lines = []     # type: List[bool]
+
+                def encoded_lines():
+                    # type: () -> Iterator[bytes]
+                    for s in sequence:
+                        if isinstance(s, str):
+                            text_lines.append(True)
+                        yield self._bytes(s, line_encoding)
+
                 try:
                     gpg_pre_lines, lines, gpg_post_lines = \
-                        self.split_gpg_and_payload(
-                            (self._bytes(s, encoding) for s in sequence),
-                            strict)
+                        self.split_gpg_and_payload(encoded_lines(), strict)
                 except EOFError:
                     # Empty input
                     gpg_pre_lines = lines = gpg_post_lines = []
@@ -1891,16 +1905,20 @@ class _gpg_multivalued(_multivalued):
                     raw_text.write(b"\n\n")
                     raw_text.write(b"\n".join(gpg_post_lines))
                     self.raw_text = raw_text.getvalue()
+                    if text_lines:
+                        # (the raw text of a text file: in its own encoding)
+                        self.raw_text = self.raw_text.decode(
+                            line_encoding).encode(encoding)
                 try:
                     argsl = list(args)
                     argsl[0] = lines
                     args = tuple(argsl)
                 except IndexError:
                     kwargs["sequence"] = lines
-                if len(args) < 4:
+                if text_lines and len(args) < 4:
                     # the lines are bytes in this encoding now (see above), so
                     # that is what they have to be decoded with
-                    kwargs["encoding"] = encoding
+                    kwargs["encoding"] = line_encoding
 
         _multivalued.__init__(self, *args, **kwargs)
 
